@@ -233,6 +233,9 @@ def mu_m1_m2(chk):
                 snap = {k: rd(k) for k in cells if k != 'mp' and cells[k] is not None and not k.startswith('P')}
                 binos_ = [e[1]['idx'] for e in st_.events if e[0] == 'bino']
                 st_.event('update', snap=snap, idx_pole=binos_[0] if binos_ else None, idx_dr=binos_[-1] if binos_ else None)
+                if cells.get('stop_after_update') and binos_:
+                    from symx.exec import PathEnd
+                    raise PathEnd('update-recorded')
             write_spectrum(ex_, st_)
             return None
         return NotImplemented
@@ -293,6 +296,26 @@ def mu_m1_m2(chk):
     jobs = []
     seen_updates = set()
     ex.max_paths = 20000
+    # dedicated pass for the update formula: first iteration only, both sides of every branch, stop right after the update
+    cells['stop_after_update'] = True
+    ex.no_prune = True
+    ex.sqrt_no_fork = True
+    ex.stats['paths'] = 0
+    try:
+        s2 = ex.start('vx_convert_Mu_M1_M2', [mp, goal, 1], st.fork())
+        s2.pc += [goal > 0]
+        upaths = ex.explore(s2)
+    except Unsupported as e:
+        upaths = []
+        chk.not_covered.append('convert_Mu_M1_M2 update formula not analysed (%s)' % str(e)[:60])
+    finally:
+        ex.no_prune = False
+        ex.sqrt_no_fork = False
+        cells['stop_after_update'] = False
+    upaths = [p_ for p_ in upaths if p_.outcome and p_.outcome[0] == 'update-recorded']
+    if not upaths:
+        chk.record('S3:update-formula', 'gap', 'no path reaches the parameter update', family=fam)
+        chk.not_covered.append('convert_Mu_M1_M2: the parameter update was not reached in the dedicated pass')
     for maxit in range(0, (1 if chk.tier == 'quick' else MAXIT) + 1):
         import time
         ex.deadline = time.time() + (150 if chk.tier == 'quick' else 1200)
@@ -305,13 +328,17 @@ def mu_m1_m2(chk):
         except Unsupported as e:
             chk.record('S3:maxit%d' % maxit, 'gap', str(e)[:100], family=fam)
             chk.not_covered.append('convert_Mu_M1_M2 with max_iterations = %d not fully explored (%s)' % (maxit, str(e)[:60]))
-            continue
+            rr = []
+            if maxit != 1:
+                continue
         finally:
             ex.deadline = None
             ex.no_prune = False
+        if maxit == 1:
+            rr = list(upaths) + list(rr)
         for pi, p in enumerate(rr):
             tag = 'S3:maxit%d#%d' % (maxit, pi)
-            if p.outcome[0] != 'ret':
+            if p.outcome[0] not in ('ret', 'update-recorded'):
                 continue
             ups = [e[1] for e in p.events if e[0] == 'update' and e[1]['idx_pole'] is not None]
             if ups:
@@ -394,6 +421,8 @@ def mu_m1_m2(chk):
                                         'M1 = Re(N^T diag(MChi_goal) N)(0,0) with MChi_goal the current masses except the bino-like one replaced by '
                                         'its pole mass - for arbitrary complex mixing matrices (so the on-shell point, signs included, is a fixed '
                                         'point of the map)'}})
+            if p.outcome[0] == 'update-recorded':
+                continue
             flags = [e[1]['what'] for e in p.events if e[0] == 'flag']
             if len(flags) != 1:
                 jobs.append({'name': tag, 'constraints': list(p.pc), 'family': fam, 'expect_unsat_structure': True,
